@@ -211,3 +211,91 @@ PLAN["C13"] = dict(
         dict(test="TestC13Rapid", checks=100000, shards=16, counts=["C13.cap"], timeout=3000),
     ],
 )
+
+_MODEL_NOTE = ("Model-by-construction oracle: inputs are rendered from a structured specification, so the expected parse is known "
+               "without consulting the code; the generators only produce text inside the grammar the property quantifies over. "
+               "Trusted: the hand-written renderer/model in harness/props.")
+
+PLAN["C05"] = dict(
+    technique="invariant-checking PBT: structural relations (containment, nesting, order, trimming, body/raw views) over every successfully parsed generated/corpus/mutated message, one-shot and chunked",
+    level_text=("Exploration: grammar-generated messages with type-valid header values (repeated From/Contact/PAI headers, "
+                "multi-value lists, folds, all line-end kinds), mutated messages that still parse and the corpus, at start "
+                "offsets 0 and k, flags 0..3, one-shot and chunked. Oracle = invariants only: all fields inside the consumed "
+                "region; first-line fields in order separated by single spaces; headers in order, each name/value inside its "
+                "own line, 'WS* : LWS*' between them, values trimmed; V of From/To/Call-ID/CSeq/Content-Length/Expires equals "
+                "the value of the first header of that type; Name/URI/Params inside V, Tag inside Params, CSeq parts inside "
+                "CSeq.V; contact/identity values inside a header of their kind, ascending and disjoint; Body from the blank "
+                "line to the returned offset; RawMsg == buf[start:o]; Buf == buf[:o]."),
+    level_note="Invariant oracle: nothing is asserted about which inputs are accepted, only about relations between reported fields on accepted inputs.",
+    rule=("case = (junk prefix, message bytes, flags, schedule); non-trivial = the message parses successfully with >= 3 "
+          "headers and contains a fold, a repeated known header or a multi-value header; distinct by case hash"),
+    quick=[
+        dict(kind="enum", test="TestC05Corpus", timeout=600),
+        dict(test="TestC05Rapid", checks=20000, shards=10, counts=["C05.contain"]),
+    ],
+    thorough=[
+        dict(kind="enum", test="TestC05Corpus", timeout=600),
+        dict(test="TestC05Rapid", checks=200000, shards=16, counts=["C05.contain"], timeout=3000),
+    ],
+)
+
+PLAN["C06"] = dict(
+    technique="model-based PBT: framing decision table (flags x Content-Length relation) on generated header blocks + exhaustive grid; pipelined messages compared with each message parsed alone",
+    level_text=("Exploration: generated well-formed heads (first line + typed headers, no Content-Length) combined with a "
+                "declared Content-Length (absent, equal, smaller, larger than available, > 2^24; long or compact name; any "
+                "position), 0..60,000 available bytes and all 8 flag sets; the expected verdict/offset/body/RawMsg/Buf come "
+                "from the decision table of the property statement. Exhaustive grid: 6 heads x 8 flag sets x available 0..40 "
+                "x every Content-Length 0..avail+3. Pipelining: 1..5 self-delimiting messages back to back, parsed from each "
+                "returned offset (skip-body: harness advances by Content-Length) on a Reset() or new object, under a chunk "
+                "schedule, each compared with the same message parsed alone."),
+    level_note=_MODEL_NOTE,
+    rule=("case = (head spec, Content-Length policy, available bytes, flags) or (k messages, mode, schedule); non-trivial = "
+          "body parsing on with Content-Length != available bytes, or k >= 2; distinct by case hash / grid cases distinct by construction"),
+    quick=[
+        dict(kind="enum", test="TestC06Grid", timeout=600),
+        dict(test="TestC06FrameRapid", checks=15000, shards=6, counts=["C06.frame"]),
+        dict(test="TestC06PipeRapid", checks=10000, shards=6, counts=["C06.pipe"]),
+    ],
+    thorough=[
+        dict(kind="enum", test="TestC06Grid", timeout=600),
+        dict(test="TestC06FrameRapid", checks=150000, shards=8, counts=["C06.frame"], timeout=3000),
+        dict(test="TestC06PipeRapid", checks=100000, shards=8, counts=["C06.pipe"], timeout=3000),
+    ],
+)
+
+PLAN["C07"] = dict(
+    technique="model-based PBT: header blocks rendered from a structured spec (names, whitespace, folds, line ends, repeated headers), expected N/flags/type/name/value/first-of-type known by construction",
+    level_text=("Exploration: 1..60 generated header lines - known names in any case or compact form, one-edit neighbours, "
+                "random tokens; SP/HT before the colon; LWS and folds (CRLF SP, CR SP, LF HT) after the colon, inside and after "
+                "the value; CRLF / lone CR / lone LF line ends; empty values; repeated headers - parsed with hb == nil (generic "
+                "values) and hb == &PHdrVals (type-valid values), header capacity none, 0..N+1. Expected: N, PFlags, and for "
+                "every stored header type (reference table), name bytes+offset, value bytes+offset (first to last non-LWS "
+                "byte), GetHdr(t) = first header of type t, missing otherwise."),
+    level_note=_MODEL_NOTE,
+    rule=("case = (list of header specs, blank line, tail, typed?, capacities); non-trivial = >= 2 headers and at least one "
+          "of: fold, lone CR/LF line end, whitespace before the colon, empty value, compact or re-cased known name, capacity < N; "
+          "distinct by case hash"),
+    quick=[dict(test="TestC07Rapid", checks=12000, shards=12, counts=["C07.block"])],
+    thorough=[dict(test="TestC07Rapid", checks=120000, shards=16, counts=["C07.block"], timeout=3000)],
+)
+
+PLAN["C08"] = dict(
+    technique="model-based PBT + enumeration: request/status lines rendered from a spec (all 1000 status codes x terminators x reasons x version casings; all table methods and their case flips), plus stated near-miss mutations that must be rejected",
+    level_text=("Exploration with exhaustive parts: every status code 000-999 x 3 line terminators x 4 reasons x 4 version "
+                "casings, every table method (exact, lower-case, every single case flip, one char more/less) x terminators, "
+                "through ParseFLine and ParseSIPMsg; generated request lines (table / re-cased / random token methods, random "
+                "URI and version tokens) and status lines (any reason without CR/LF); 15 kinds of near-miss (double space, tab, "
+                "missing/extra token, leading/trailing space, 2/4-digit or non-digit code, missing space after the code) must "
+                "give an error verdict. Expected tokens, offsets, Status, MethodNo (reference table), Request(), Method()."),
+    level_note=_MODEL_NOTE,
+    rule=("case = (first-line spec, near-miss kind, following bytes, entry point); every case is non-trivial (none is a literal "
+          "row of parse_fline_test); distinct by case hash / enumerated lines distinct by construction"),
+    quick=[
+        dict(kind="enum", test="TestC08Enum", timeout=600),
+        dict(test="TestC08Rapid", checks=30000, shards=8, counts=["C08.fline"]),
+    ],
+    thorough=[
+        dict(kind="enum", test="TestC08Enum", timeout=600),
+        dict(test="TestC08Rapid", checks=400000, shards=12, counts=["C08.fline"], timeout=3000),
+    ],
+)
